@@ -19,6 +19,8 @@ CONSTANTS Family,     \* "econ" | "attest" | "valset" | "registry"
           Users, SendChains, Denoms, DepChains, DepDests, \* alphabet of the econ family
           MaxSends, MaxDeposits, MaxBlocks, \* bounds that keep the exhaustive runs finite and small
           Orchs, Exts, KeyChains, KeyVariants, \* alphabet of the valset / registry family
+          DepAmts, DepFees, WithKeysAndPrices, FeePaids, StakePowers, \* fees family: genesis with Minter delegate keys and oracle prices; gas costs reported by relayers
+          WatchNames, \* names of the property predicates whose failure is a violation in this run
           KeepHist,   \* TRUE: carry the action history (simulation; counterexample extraction)
           TwoLevel,   \* TRUE (simulation): first pick an action kind uniformly, then its parameters
           EmitScripts \* TRUE: print a script whenever a behaviour reaches MaxLen
@@ -48,12 +50,18 @@ EmptyChain ==
      loss |-> <<>>, votes |-> {}, lnv |-> <<>>, sigs |-> {}, ve |-> <<>>, ov |-> <<>>, eo |-> <<>>]
 
 InitHub ==
-    [cfg |-> "static", h |-> 0, t |-> 0, inb |-> FALSE,
+    [cfg |-> "static", h |-> IF Family = "registry" THEN 1 ELSE 0, t |-> IF Family = "registry" THEN 1 ELSE 0, inb |-> (Family = "registry"),
      bal |-> [a \in {"a1", "a2", "a3", "tmp", "mod"} |-> [d \in {"hub", "usd"} |-> IF a \in {"a1", "a2"} THEN 1000 ELSE 0]],
      sup |-> [d \in {"hub", "usd"} |-> 2000],
      stk |-> [v \in Vals |-> [b |-> TRUE, p |-> 1, j |-> FALSE, x |-> TRUE, tk |-> 1]], tot |-> 3,
-     ch  |-> [c \in {"ethereum", "minter", "bsc", "hub"} |-> EmptyChain],
-     st  |-> <<>>, fr |-> <<>>, hold |-> <<>>, pr |-> <<>>]
+     ch  |-> [c \in {"ethereum", "minter", "bsc", "hub"} |->
+                IF c = "minter" /\ WithKeysAndPrices
+                THEN [EmptyChain EXCEPT !.ve = [v1 |-> "e1", v2 |-> "e2", v3 |-> "e3"], !.ov = [o1 |-> "v1", o2 |-> "v2", o3 |-> "v3"],
+                                        !.eo = [e1 |-> "o1", e2 |-> "o2", e3 |-> "o3"]]
+                ELSE EmptyChain],
+     st  |-> <<>>, fr |-> <<>>, hold |-> <<>>,
+     \* prices are kept doubled (scripts/cfg_keys_prices.json: hub 1, usd 2, eth 4, bnb 1)
+     pr  |-> IF WithKeysAndPrices THEN ("hub" :> 2) @@ ("usd" :> 4) @@ ("eth" :> 8) @@ ("bnb" :> 2) @@ ("ethereum/gas" :> 2) @@ ("bsc/gas" :> 2) ELSE <<>>]
 
 InitExt == XwInit(InitHub)
 
@@ -111,8 +119,8 @@ NextNonce(c) == Len(xw[c].log) + 1
 
 \* a user locks `amt` of a token in the contract / sends it to the multisig, naming a destination
 ExtDeposit ==
-    /\ ~hub.inb /\ \A c \in DepChains : Len(xw[c].log) < MaxDeposits
-    /\ \E c \in DepChains, amt \in {40}, fee \in {0, 2}, rch \in DepDests, d \in Denoms :
+    /\ \A c \in DepChains : Len(xw[c].log) < MaxDeposits
+    /\ \E c \in DepChains, amt \in DepAmts, fee \in DepFees, rch \in DepDests, d \in Denoms :
          LET tok == TokByDenom(Cfg(hub), c, d)
              ev  == [t |-> "Deposit", n |-> NextNonce(c), tok |-> tok.ext, amt |-> amt, fee |-> fee, snd |-> "e7", rch |-> rch,
                      rcv |-> IF rch = "hub" THEN "a3" ELSE "e8", eh |-> xw[c].h + 1, txh |-> "x" \o ToString(cnt + 1)]
@@ -121,17 +129,16 @@ ExtDeposit ==
 
 \* a relayer executes a stored batch on the external chain (any not yet superseded nonce, before its timeout)
 ExtExec ==
-    /\ ~hub.inb
     /\ \E c \in (SendChains \cup DepDests) \ {"hub"} : \E b \in (IF c = "minter" THEN hub.ch[c].bat ELSE xw[c].pub) :
          /\ ContractAccepts(xw, c, b)
-         /\ LET ev == [t |-> "Exec", n |-> NextNonce(c), tok |-> b.tok, bn |-> b.n, eh |-> xw[c].h + 1,
-                       txh |-> "x" \o ToString(cnt + 1), fp |-> 1, fpr |-> "e9"]
+         /\ \E fp \in FeePaids :
+            LET ev == [t |-> "Exec", n |-> NextNonce(c), tok |-> b.tok, bn |-> b.n, eh |-> xw[c].h + 1,
+                       txh |-> "x" \o ToString(cnt + 1), fp |-> fp, fpr |-> "e9"]
                 paid == SumOver(b.txs, LAMBDA tr : tr.a)
                 act == [k |-> "ExtExec", i |-> 0, chain |-> c, ev |-> ev, paid |-> paid]
             IN ExtDo(act, XwApply(xw, act))
 
 ExtMine ==
-    /\ ~hub.inb
     /\ \E c \in {"ethereum"} : xw[c].h < 6 /\ LET act == [k |-> "ExtMine", i |-> 0, chain |-> c, n |-> 3] IN ExtDo(act, XwApply(xw, act))
 
 \* every bonded validator reports the next event of a chain's log (honest quorum, one macro step = 3 claims)
@@ -168,7 +175,7 @@ ClaimOne ==
 \* voting power changes take effect in the staking end blocker (modelled as part of the End step input)
 StakeChange ==
     /\ hub.inb
-    /\ \E v \in Vals, p \in {0, 1, 2, 3} :
+    /\ \E v \in Vals, p \in StakePowers :
           /\ p # hub.stk[v].p
           /\ hub' = [hub EXCEPT !.stk[v].p = p, !.stk[v].b = (p > 0), !.tot = hub.tot - hub.stk[v].p + p]
           /\ hist' = IF KeepHist THEN Append(hist, [k |-> "Stake", i |-> cnt + 1, val |-> v, p |-> p]) ELSE hist
@@ -204,9 +211,36 @@ ConfirmGood ==
                 Do([k |-> "Confirm", i |-> 0, by |-> by, chain |-> c, tx |-> tx, ext |-> hub.ch[c].ve[v], key |-> hub.ch[c].ve[v]])
     /\ xw' = XwObserve(xw, hub')
 
+\* macro steps (several recorded actions in one model step) that make long productive behaviours likely in simulation
+DoSeq(acts) ==   \* acts: sequence of action records without index
+    LET F[k \in 0..Len(acts)] ==
+          IF k = 0 THEN [s |-> hub, g |-> g, bad |-> {}, hist |-> <<>>]
+          ELSE LET p   == F[k - 1]
+                   act == [acts[k] EXCEPT !.i = cnt + k]
+                   r   == Step(p.s, act)
+                   res == [out |-> r.out, id |-> r.id]
+               IN [s |-> r.s, g |-> GhostNext(p.g, p.s, act, res, r.s),
+                   bad |-> p.bad \cup StepChecks(p.g, p.s, act, res, r.s) \cup C01Step(p.s, act, r.s), hist |-> Append(p.hist, act)]
+        f == F[Len(acts)]
+    IN /\ hub' = f.s /\ g' = f.g /\ bad' = f.bad
+       /\ hist' = IF KeepHist THEN hist \o f.hist ELSE hist
+       /\ cnt' = cnt + Len(acts)
+NextBlock ==
+    /\ hub.inb /\ hub.h < MaxBlocks
+    /\ \E dt \in {1, 101} : DoSeq(<<[k |-> "End", i |-> 0], [k |-> "Begin", i |-> 0, dt |-> dt]>>)
+    /\ xw' = XwObserve(xw, hub')
+SendBatch ==
+    /\ hub.inb /\ \A c \in SendChains : hub.ch[c].txid < MaxSends
+    /\ \E from \in Users, c \in SendChains, d \in Denoms, amt \in Amts, fee \in Fees :
+          DoSeq(<<[k |-> "Send", i |-> 0, from |-> from, chain |-> c, dest |-> "e5", denom |-> d, amt |-> amt, fee |-> fee],
+                  [k |-> "ReqBatch", i |-> 0, from |-> "a1", chain |-> c, denom |-> d]>>)
+    /\ xw' = XwObserve(xw, hub')
+
 Kinds(fam) ==
     CASE fam = "econ"   -> {"Begin", "End", "Send", "Cancel", "ReqBatch", "ExtDeposit", "ExtExec", "ExtMine", "AttestNext"}
+      [] fam = "fees"   -> {"Begin", "NextBlock", "SendBatch", "Send", "ExtDeposit", "ExtExec", "AttestNext", "StakeChange"}
       [] fam = "attest" -> {"Begin", "End", "ClaimOne", "StakeChange"}
+      [] fam = "registry" -> {"SetKeys"}
       [] fam = "valset" -> {"Begin", "End", "SetKeys", "Confirm", "ConfirmGood", "StakeChange", "Send", "ReqBatch"}
       [] OTHER -> {"Begin", "End"}
 
@@ -214,7 +248,8 @@ ActionOf(kind) ==
     CASE kind = "Begin" -> Begin [] kind = "End" -> End [] kind = "Send" -> Send [] kind = "Cancel" -> Cancel
       [] kind = "ReqBatch" -> ReqBatch [] kind = "ExtDeposit" -> ExtDeposit [] kind = "ExtExec" -> ExtExec
       [] kind = "ExtMine" -> ExtMine [] kind = "AttestNext" -> AttestNext [] kind = "ClaimOne" -> ClaimOne
-      [] kind = "StakeChange" -> StakeChange [] kind = "SetKeys" -> SetKeys [] kind = "Confirm" -> Confirm [] kind = "ConfirmGood" -> ConfirmGood [] OTHER -> FALSE
+      [] kind = "StakeChange" -> StakeChange [] kind = "SetKeys" -> SetKeys [] kind = "Confirm" -> Confirm [] kind = "ConfirmGood" -> ConfirmGood
+      [] kind = "NextBlock" -> NextBlock [] kind = "SendBatch" -> SendBatch [] OTHER -> FALSE
 
 Next ==
     /\ cnt < MaxLen
@@ -233,14 +268,16 @@ View == <<hub, xw, g, bad>>
 \* ---------------------------------------------------------------- invariants
 \* with KeepHist a violating behaviour is written out as a script ($VERIF_CEX) for replay on the real code
 DumpCex == IF KeepHist THEN JsonSerialize(IOEnv.VERIF_CEX, hist) ELSE TRUE
-NoStepViolation == (\A f \in bad : Excused(f)) \/ (DumpCex /\ FALSE)
+NoStepViolation == (\A f \in bad : f[1] \notin WatchNames \/ Excused(f)) \/ (DumpCex /\ FALSE)
 
 Solvency == Solvent(hub, xw) \/ (DumpCex /\ FALSE)
 
 \* ---------------------------------------------------------------- script output (simulation mode)
 \* one file per behaviour: $VERIF_OUT/s<k>.json, k = number of the behaviour in this simulation run
+\* (exhaustive mode with KeepHist and no VIEW: every maximal behaviour of the bounded model is written, numbered by
+\*  the count of distinct states found so far; needs -workers 1)
 Emit == IF EmitScripts /\ cnt >= MaxLen
-        THEN JsonSerialize(IOEnv.VERIF_OUT \o "/s" \o ToString(TLCGet("stats").traces) \o ".json", hist)
+        THEN JsonSerialize(IOEnv.VERIF_OUT \o "/s" \o ToString(IF TwoLevel THEN TLCGet("stats").traces ELSE TLCGet("distinct")) \o ".json", hist)
         ELSE TRUE
 
 =============================================================================
